@@ -35,8 +35,10 @@ def knotvector(rng, p, kind=None, nint=None, grid=16):
         interior += [d / float(grid)] * m
     U = [0.0] * (p + 1) + interior + [1.0] * (p + 1)
     if kind == "affine":
-        a = rng.choice([2.0, 3.0, 0.5, 4.0, 1.5])
-        b = rng.choice([-1.0, 0.25, 2.0, 0.0, -3.5])
+        a = rng.choice([2.0, 3.0, 0.5, 4.0, 1.5, 1.0, 1.0])
+        b = rng.choice([-1.0, 0.25, 2.0, 0.0, -3.5, -0.5, 1.0])
+        if a == 1.0 and b == 0.0:
+            b = 2.0
         U = [a * k + b for k in U]
     return U, kind
 
